@@ -3,6 +3,7 @@ package main
 // SMT-LIB emission and solver racing.
 
 import (
+	"regexp"
 	"bytes"
 	"context"
 	"crypto/sha1"
@@ -255,6 +256,8 @@ func predApps(text, name string) [][]string {
 	return out
 }
 
+var boundVarRe = regexp.MustCompile(`(^|[ (])([A-Za-z]+_)?q[0-9]+($|[ )])`)
+
 var identChar = func(c byte) bool {
 	return c == '_' || c == '.' || c == '!' || (c >= '0' && c <= '9') || (c >= 'a' && c <= 'z') || (c >= 'A' && c <= 'Z')
 }
@@ -315,11 +318,21 @@ func (eng *Engine) revealDefs(goal, full string, always []string) string {
 					continue
 				}
 				key := pd.name + " " + strings.Join(args, " ")
-				if done[key] {
+				if done[key] || strings.Join(args, " ") == strings.Join(pd.formals, " ") {
 					continue
 				}
 				done[key] = true
 				added = true
+				if boundVarRe.MatchString(strings.Join(args, " ")) {
+					// the application sits under a quantifier: reveal through the quantified definition
+					qk := pd.name + " #quantified"
+					if !done[qk] {
+						done[qk] = true
+						app := "(" + pd.name + " " + strings.Join(pd.formals, " ") + ")"
+						fmt.Fprintf(&b, "(assert (forall (%s) (! (= %s %s) :pattern (%s))))\n", pd.binders, app, pd.body, app)
+					}
+					continue
+				}
 				fmt.Fprintf(&b, "(assert (= (%s %s) %s))\n", pd.name, strings.Join(args, " "), substFormals(pd.body, pd.formals, args))
 			}
 		}
